@@ -52,10 +52,25 @@ def r_C03fgh(root):
         if isinstance(n, ast.For):
             rets = [r for r in ast.walk(n) if isinstance(r, ast.Return) and r.value is not None and any(callee_name(c) == "process_node" for c in calls(r))]
             if rets: sel = (n, rets[0]); break
-    if sel is None: raise AnalysisError("selection loop of the abstract-rule branch not found (unsupported idiom)")
-    loop, ret = sel
-    lv = {x.id for x in ast.walk(loop.target) if isinstance(x, ast.Name)}
-    gs = [(g, pol) for g, pol in fi.guards(ret) if any(isinstance(x, ast.Name) and x.id in lv for x in ast.walk(g))]
+    gen_sel = None
+    if sel is None:
+        # idiom: first = next((n for n in nonterminals if <kind guard>), None); if first is not None: return process_node(first)
+        for c in calls(ast.Module(body=branch.body, type_ignores=[])):
+            if callee_name(c) == "next" and c.args and isinstance(c.args[0], ast.GeneratorExp) and len(c.args[0].generators) == 1:
+                par = getattr(c, "_parent", None)
+                if isinstance(par, ast.Assign) and isinstance(par.targets[0], ast.Name):
+                    v = par.targets[0].id
+                    rets = [r for r in ast.walk(ast.Module(body=branch.body, type_ignores=[])) if isinstance(r, ast.Return) and r.value is not None and any(callee_name(k) == "process_node" and k.args and ast.unparse(k.args[0]) == v for k in calls(r))]
+                    if rets: gen_sel = (c.args[0], rets[0]); break
+    if sel is None and gen_sel is None: raise AnalysisError("selection loop of the abstract-rule branch not found (unsupported idiom)")
+    if sel is not None:
+        loop, ret = sel
+        lv = {x.id for x in ast.walk(loop.target) if isinstance(x, ast.Name)}
+        gs = [(g, pol) for g, pol in fi.guards(ret) if any(isinstance(x, ast.Name) and x.id in lv for x in ast.walk(g))]
+    else:
+        gexp, ret = gen_sel
+        lv = {x.id for x in ast.walk(gexp.generators[0].target) if isinstance(x, ast.Name)}
+        gs = [(g, True) for g in gexp.generators[0].ifs]
     def subject(e):
         u = ast.unparse(fi.expand(e, at=ret)).replace(" ", "")
         return u.endswith("._tx_type") and any(u.startswith(v + ".") for v in lv)
